@@ -19,10 +19,18 @@ From TD Require Import Spec.PySlice Spec.C02_TorchShape.
 Open Scope Z_scope.
 
 (* ---- switches: false = /repo as it is today; true = the suggested minimal repair (findings.d/C02.json) *)
-Definition fixed_D4 : bool := false.        (* split: validate list sizes, reject k <= 0 *)
-Definition fixed_D5 : bool := false.        (* squeeze(None): no zip-unpack, view with one tuple *)
-Definition fixed_D22 : bool := false.       (* stack / cat: range check of dim after normalisation *)
-Definition fixed_S5 : bool := false.        (* flatten / repeat_interleave: range check of dims *)
+Definition fixed_D4 : bool := true.         (* split: k <= 0 and negative sizes rejected, first size clamped (fixes/C02/D4) *)
+Definition fixed_D5 : bool := true.         (* squeeze(None): sizes and names filtered separately, view with one tuple, nested
+                                               tensordicts squeezed dim by dim (fixes/C02/D5-C02a): the model below IS the repaired code *)
+Definition fixed_D22 : bool := true.        (* stack / cat: range check of dim after normalisation (D22-C02b, C02-c) *)
+Definition fixed_S5 : bool := true.         (* flatten / repeat_interleave: range check of dims (S5, C02-d) *)
+Definition fixed_C02e : bool := true.       (* chunk on a size-0 dim: `chunks` empty chunks *)
+Definition fixed_C02f : bool := true.       (* expand: -1 resolved against the existing dim *)
+Definition fixed_C02g : bool := true.       (* unflatten: -1 inferred before it is written into batch_size *)
+Definition fixed_C02h : bool := true.       (* view / reshape: -1 inferred from batch_size.numel(), guard against 0 // 0 *)
+Definition fixed_C02k : bool := true.       (* permute of a prefix keeps the names of the remaining dims *)
+Definition fixed_C02m : bool := true.       (* repeat: entries repeated with one tuple *)
+Definition fixed_C02ij : bool := true.      (* gather: index rank = batch rank, only trailing dims of the index are expanded *)
 
 Inductive errk := EIndex | EValue | ERuntime | EType | EAssert | EKey.
 Inductive out (A : Type) : Type := Done (a : A) | Raised (k : errk) | Diverges | Unmodelled.
@@ -95,11 +103,12 @@ Definition infer_size_impl (shape : list Z) (numel : Z) : out (list Z) :=
              (match infer with Some _ => (0 <? newsize) && (numel mod newsize =? 0) | None => false end) in
   if negb okb then Raised EAssert else
   match infer with
-  | Some i => Done (set_nth i (numel / newsize) shape)
+  | Some i => if newsize =? 0 then Raised EAssert      (* fixes/C02/C02-h: "it can be any value" (was 0 // 0) *)
+              else Done (set_nth i (numel / newsize) shape)
   | None => Done shape
   end.
 
-Definition td_numel (bs : list Z) : Z := Z.max 1 (prodZ bs).
+Definition td_numel (bs : list Z) : Z := if fixed_C02h then prodZ bs else Z.max 1 (prodZ bs).
 
 Definition is_identity (l : list Z) : bool := list_eqb l (map Z.of_nat (seq 0 (List.length l))).
 Definition rangeZ (a b : nat) : list Z := map Z.of_nat (seq a (b - a)).
@@ -122,7 +131,11 @@ Inductive sop :=
 | OFlatten (a b : Z)
 | OUnflatten (d : Z) (sizes : list Z)
 | ORepeat (reps : list Z)         (* tensor.repeat( *reps ) *)
-| ORepInt (r : Z) (d : Z).        (* repeat_interleave(r, dim=d) with an explicit dim *)
+| ORepInt (r : Z) (d : Z)         (* repeat_interleave(r, dim=d) with an explicit dim *)
+| OSqueezeDims (ds : list nat)    (* x.squeeze(i) for i in ds (descending): the calls squeeze() makes on a nested tensordict *)
+| OSqueezeAllChild (bs' : list Z) (n : nat) (ds : list nat).
+                                  (* the call squeeze() makes on an entry: view of the tuple bs' ++ shape[n:] on a tensor,
+                                     squeeze dim by dim (OSqueezeDims ds) on a nested tensordict *)
 
 (* what torch does when the call reaches a tensor *)
 Definition leaf_op (o : sop) (sh : list Z) : out (list Z) :=
@@ -138,8 +151,18 @@ Definition leaf_op (o : sop) (sh : list Z) : out (list Z) :=
   | OReshape s => lift ERuntime (t_reshape sh s)
   | OFlatten a b => lift ERuntime (t_flatten sh a b)
   | OUnflatten d sizes => lift ERuntime (t_unflatten sh d sizes)
-  | ORepeat reps => match reps with [] => Raised EType | _ => lift ERuntime (t_repeat sh reps) end
+  | ORepeat reps => match reps with
+                    | [] => if fixed_C02m then lift ERuntime (t_repeat sh reps) else Raised EType
+                    | _ => lift ERuntime (t_repeat sh reps)
+                    end
   | ORepInt r d => lift ERuntime (t_repeat_interleave sh r (Some d))
+  | OSqueezeDims ds =>
+      (fix go (l : list nat) (cur : list Z) : out (list Z) :=
+         match l with
+         | [] => Done cur
+         | i :: r => let* nxt := lift EIndex (t_squeeze_dim cur (Z.of_nat i)) in go r nxt
+         end) ds sh
+  | OSqueezeAllChild bs' n _ => lift ERuntime (t_view sh (bs' ++ skipn n sh))
   end.
 
 (* what the tensordict method computes at a node before visiting the entries:
@@ -150,6 +173,21 @@ Inductive step :=
 
 Definition squeeze_pairs (bs : list Z) (nl : list (option string)) : list (Z * option string) :=
   filter (fun p => negb (fst p =? 1)) (combine bs nl).
+
+(* positions of the size-1 dims, descending *)
+Definition singletons_desc (bs : list Z) : list nat :=
+  rev (map fst (filter (fun p => snd p =? 1) (combine (seq 0 (List.length bs)) bs))).
+
+(* td.squeeze(i) for i in ds, one after the other: a dim that is not 1 is left alone, a dim out of range raises *)
+Fixpoint squeeze_chain (ds : list nat) (bs : list Z) (nl : list (option string)) (done : list nat)
+  : out (list Z * list (option string) * list nat) :=
+  match ds with
+  | [] => Done (bs, nl, rev done)
+  | i :: r =>
+      if (List.length bs <=? i)%nat then Raised EIndex
+      else if nthZ bs i =? 1 then squeeze_chain r (remove_nth i bs) (remove_nth i nl) (i :: done)
+      else squeeze_chain r bs nl done
+  end.
 
 Definition node_step (o : sop) (bs : list Z) (nm : dimnames) : out step :=
   let n := List.length bs in
@@ -166,7 +204,7 @@ Definition node_step (o : sop) (bs : list Z) (nm : dimnames) : out step :=
         else
           let k := List.length dl in
           Done (SStep (map (nthZ bs) p ++ skipn k bs)
-                      (if has_names nm then Some (map (fun i => nth i nl None) p) else None)
+                      (if has_names nm then Some (map (fun i => nth i nl None) p ++ (if fixed_C02k then skipn k nl else [])) else None)
                       (fun csh => OPermute (dl ++ rangeZ k (List.length csh))))
   | OTranspose d0 d1 =>
       (* base.py:transpose + _td.py:_transpose *)
@@ -182,23 +220,14 @@ Definition node_step (o : sop) (bs : list Z) (nm : dimnames) : out step :=
                          (if has_names nm then Some (set_nth j (nth i nl None) (set_nth i (nth j nl None) nl)) else None)
                          (fun _ => OTranspose (Z.of_nat i) (Z.of_nat j)))
   | OSqueeze None =>
-      (* _td.py:_squeeze, dim is None *)
-      if has_names nm then
-        let ps := squeeze_pairs bs nl in
-        match ps with
-        | [] => if fixed_D5 then (match bs with [] => Done SSelf | _ =>
-                                  Done (SStep [] None (fun csh => OView (skipn n csh))) end)
-                else Raised EValue                      (* D5: `batch_size, names = zip( *[] )` *)
-        | _ =>
-            let bs' := map fst ps in
-            if list_eqb bs' bs then Done SSelf
-            else Done (SStep bs' (Some (map snd ps))
-                             (fun csh => (if fixed_D5 then OView else OViewStar) (bs' ++ skipn n csh)))
-        end
-      else
-        let bs' := filter (fun x => negb (x =? 1)) bs in
-        if list_eqb bs' bs then Done SSelf
-        else Done (SStep bs' None (fun csh => (if fixed_D5 then OView else OViewStar) (bs' ++ skipn n csh)))
+      (* _td.py:_squeeze, dim is None (after fixes/C02/D5-C02a): names and sizes filtered separately, no names rather
+         than an empty list; entries: tensors are viewed with one tuple, nested tensordicts squeezed dim by dim *)
+      let bs' := filter (fun x => negb (x =? 1)) bs in
+      let nm' := if has_names nm
+                 then (match map snd (squeeze_pairs bs nl) with [] => None | l => Some l end)
+                 else None in
+      if list_eqb bs' bs then Done SSelf
+      else Done (SStep bs' nm' (fun _ => OSqueezeAllChild bs' n (singletons_desc bs)))
   | OSqueeze (Some d) =>
       let* nd := correct_neg_dim d n in
       if negb (nthZ bs nd =? 1) then Done SSelf
@@ -219,6 +248,10 @@ Definition node_step (o : sop) (bs : list Z) (nm : dimnames) : out step :=
       let m := List.length shape in
       if (m <? n)%nat then Raised ERuntime
       else
+        (* -1 keeps the size of an existing dim (fixes/C02/C02-f) *)
+        let shape := if fixed_C02f
+                     then firstn (m - n) shape ++ map (fun p => if snd p =? -1 then fst p else snd p) (combine bs (skipn (m - n) shape))
+                     else shape in
         let tail := skipn (m - n) shape in
         if existsb (fun p => negb (fst p =? 1) && negb (snd p =? fst p)) (combine bs tail) then Raised ERuntime
         else Done (SStep shape
@@ -239,8 +272,8 @@ Definition node_step (o : sop) (bs : list Z) (nm : dimnames) : out step :=
       let m := Z.of_nat n in
       let s := if a <? 0 then m + a else a in
       let e := if b <? 0 then m + b else b in
-      if (b <? 0) && (e <? 0) then Raised EValue
-      else if fixed_S5 && ((s <? 0) || (m <=? e)) then Raised EIndex
+      if fixed_S5 && ((s <? 0) || (m <=? s) || (e <? 0) || (m <=? e)) then Raised EIndex   (* _maybe_correct_neg_dim on both *)
+      else if (b <? 0) && (e <? 0) then Raised EValue
       else if e <=? s then Raised EValue
       else
         let nelt := prodZ (py_slice bs s (e + 1)) in
@@ -253,6 +286,7 @@ Definition node_step (o : sop) (bs : list Z) (nm : dimnames) : out step :=
       (* base.py:unflatten: sizes are copied literally into batch_size (C02-g); names are set afterwards
          through the names setter (length check) *)
       let* nd := correct_neg_dim d n in
+      let* sizes := (if fixed_C02g && existsb (fun x => x <? 0) sizes then infer_size_impl sizes (nthZ bs nd) else Done sizes) in
       let bs' := if (0 <? nd)%nat then firstn nd bs ++ sizes ++ skipn (S nd) bs else sizes ++ skipn 1 bs in
       let nm' := if has_names nm
                  then Some ((fix ins (k : nat) (l : list (option string)) :=
@@ -276,6 +310,13 @@ Definition node_step (o : sop) (bs : list Z) (nm : dimnames) : out step :=
           else if fixed_S5 && (Z.of_nat n <=? dc) then Raised EValue
           else Done (SStep (map (fun p => if Z.of_nat (fst p) =? dc then snd p * r else snd p) (combine (seq 0 n) bs))
                            None (fun _ => ORepInt r dc))
+      end
+  | OSqueezeDims ds | OSqueezeAllChild _ _ ds =>
+      let* r := squeeze_chain ds bs nl [] in
+      let '(bs', nl', sq) := r in
+      match sq with
+      | [] => Done SSelf
+      | _ => Done (SStep bs' (if has_names nm then Some nl' else None) (fun _ => OSqueezeDims sq))
       end
   end.
 
@@ -414,10 +455,13 @@ Definition split_list_segments (max : Z) (l : list Z) : out (list (Z * Z)) :=
   match l with
   | [] => Raised ERuntime
   | x :: r =>
-      if fixed_D4 && (negb (forallb (fun y => 0 <=? y) l) || negb (sumZ l =? max)) then Raised ERuntime
+      (* after fixes/C02/D4: negative sizes are rejected and the first size is clamped like the following ones;
+         sizes that sum beyond the dim are still truncated (test_split_lazy relies on it): finding D4 (reduced) *)
+      if fixed_D4 && negb (forallb (fun y => 0 <=? y) l) then Raised ERuntime
       else
-        let '(segs, last) := split_list_loop r x max in
-        if last <? max then Raised ERuntime else Done ((0, x) :: segs)
+        let x' := if fixed_D4 then Z.min max x else x in
+        let '(segs, last) := split_list_loop r x' max in
+        if last <? max then Raised ERuntime else Done ((0, x') :: segs)
   end.
 
 (* tensor[(slice(None),)*d + (slice(a, b),)] on an entry, td._index_tensordict(index, new_batch_size=...) on a node *)
@@ -457,7 +501,9 @@ Definition td_chunk (t : tree) (chunks d : Z) : out (list tree) :=
         if (d <? - n) || (n <=? d) then Raised EIndex
         else
           let sz := nthZ bs (py_pos bs d) in
-          td_split t (inl (- ((sz) / (- chunks)))) d
+          let k := - ((sz) / (- chunks)) in
+          if fixed_C02e && (k =? 0) then td_split t (inr (repeat 0 (Z.to_nat chunks))) d   (* a dim of size 0 *)
+          else td_split t (inl k) d
   end.
 
 (* ==================================================================================================
@@ -475,6 +521,7 @@ Fixpoint gather_at (t : tree) (d : Z) (ishape : list Z) {struct t} : out tree :=
           else
             let dd := if d <? 0 then Z.of_nat n + d else d in
             if (Z.of_nat n - 1 <? dd) || (dd <? 0) then Raised ERuntime
+            else if fixed_C02ij && negb (Nat.eqb (List.length ishape) n) then Raised ERuntime
             else
               let di := Z.to_nat dd in
               let* ents' :=
@@ -485,7 +532,8 @@ Fixpoint gather_at (t : tree) (d : Z) (ishape : list Z) {struct t} : out tree :=
                        let csh := top_shape c in
                        let m := List.length csh in
                        let idx0 := ishape ++ repeat 1 (m - List.length ishape) in
-                       let target := set_nth di (nthZ idx0 di) csh in
+                       let target := if fixed_C02ij then ishape ++ skipn (List.length ishape) csh
+                                     else set_nth di (nthZ idx0 di) csh in
                        let* _e := lift ERuntime (t_expand idx0 target) in
                        let* c' := gather_at c dd target in
                        let* r' := go r in
@@ -694,7 +742,8 @@ Fixpoint stack_out_at (fuel : nat) (first : tree) (others : list tree) (d : Z) (
       | Node bs nm ents, Node obs onm oents =>
           let n := Z.of_nat (List.length bs) in
           let dd := if d <? 0 then n + d + 1 else d in
-          if negb (forallb (fun t => match t with Node b _ _ => list_eqb b bs | Leaf _ => false end) others)
+          if fixed_D22 && ((dd <? 0) || (n <? dd)) then Raised EIndex
+          else if negb (forallb (fun t => match t with Node b _ _ => list_eqb b bs | Leaf _ => false end) others)
           then Raised ERuntime
           else if negb (list_eqb (py_insert bs dd (Z.of_nat (S (List.length others)))) obs) then Raised ERuntime
           else
@@ -737,6 +786,7 @@ Fixpoint cat_out_at (fuel : nat) (first : tree) (others : list tree) (d : Z) (de
           let n := Z.of_nat (List.length bs) in
           let dd := if d <? 0 then n + d else d in
           if n <=? dd then Raised ERuntime
+          else if fixed_D22 && (dd <? 0) then Raised ERuntime
           else if (dd <? - n) then Raised EIndex
           else if negb (forallb (fun t => match t with Node _ _ _ => true | Leaf _ => false end) others) then Raised ERuntime
           else
